@@ -39,7 +39,7 @@ def plan(tier, seed):
     nsh = 16
     if tier == 'quick':
         specs = [{'kind': 'random', 'count': 14} for _ in range(nsh)]
-        specs.append({'kind': 'errors', 'count': 54})
+        specs.append({'kind': 'errors', 'count': 66})
         return specs
     # all 4^6 assignments, dealt round-robin to shards
     allx = list(itertools.product(range(4), repeat=6))
@@ -67,7 +67,8 @@ class Pool:
                 # a cart that `p8tool build` itself could have produced from a program with packages: its code calls require();
                 # as a source cart its code is copied like any other (the file it names exists here, the one below does not)
                 code = b'local m=require("helper_a")\n' + code
-            p = os.path.join(root, '%s-s%d.p8' % (carts.cart_basename(i * 3 + rng.randrange(3)), i))
+            # (the first source's name begins with a character that means something to command-line conventions: it is a file name)
+            p = os.path.join(root, '%s%s-s%d.p8' % ('@' if i == 0 else '', carts.cart_basename(i * 3 + rng.randrange(3)), i))
             trim, omit = (), ()
             if i >= 2:
                 # written the way current PICO-8 writes carts: sections without their trailing default rows, or left out
@@ -355,7 +356,7 @@ def run_build(ctx, rng, pool, root, assign, out_state, out_fmt, lua_from_file, r
 
 
 ERROR_KINDS = ('conflict', 'missing', 'wrongext', 'lua_for_data', 'bad_out_ext', 'empty_name', 'empty_name_conflict',
-               'source_is_absent_out', 'source_is_out_conflict')
+               'source_is_absent_out', 'source_is_out_conflict', 'out_with_unparseable_lua', 'out_is_not_a_cart')
 
 
 def run_error(ctx, rng, pool, root, index=0):
@@ -408,6 +409,18 @@ def run_error(ctx, rng, pool, root, index=0):
         argv += ['--' + sec, spell]
         if kind == 'source_is_out_conflict':
             argv += ['--empty-' + sec]
+    elif kind in ('out_with_unparseable_lua', 'out_is_not_a_cart'):
+        # OUT exists and cannot be read as a cart (its code is work in progress and does not parse; it is some other file): its
+        # sections cannot be carried over, the build fails and the file stays as it is
+        out = os.path.join(root, 'eout.p8')
+        argv[2] = out
+        regions, _ = carts.random_regions(rng, 'uniform')
+        before = (rc.write_p8(regions, rng.choice((b'x = = 1\n', b'function f(\n y=1\n', b's="unterminated\n', b'--[[ open comment\n')), version=8)
+                  if kind == 'out_with_unparseable_lua' else rng.choice((b'just some notes\n', b'', b'pico-8 cartridge\n', b'\x89PNG\r\n\x1a\n')))
+        with open(out, 'wb') as fh:
+            fh.write(before)
+        exists = True
+        argv += ['--' + sec, good]
     else:
         out = os.path.join(root, 'eout.txt')
         argv[2] = out
